@@ -498,9 +498,12 @@ size_t varintAdaptiveDecode(const uint8_t *src, uint64_t *values,
         varintBitmap *vb = varintBitmapDecode(data, 1024 * 1024);
         if (vb) {
             /* Extract values from bitmap */
+            /* varintBitmapToArray exports every member: size by cardinality */
             size_t allocSize;
             uint16_t *shortValues = NULL;
-            if (!size_mul_overflow(maxCount, sizeof(uint16_t), &allocSize)) {
+            size_t members = varintBitmapCardinality(vb);
+            if (!size_mul_overflow(members > 0 ? members : 1, sizeof(uint16_t),
+                                   &allocSize)) {
                 shortValues = malloc(allocSize);
             }
 
